@@ -461,7 +461,11 @@ func (m *monC08) OnStep(r *Runner, st *Step) {
 	for _, l := range st.Logs {
 		if strings.Contains(l.Msg, "failed to call before validator slashed hook") || strings.Contains(l.Msg, "failed to call before validator modified hook") {
 			r.Eval("C08.a")
-			r.Violate("C08.a", "hook-error:"+m.classifyHookErr(r, st.Pre, l.KV), fmt.Sprintf("x/staking logged %q%s", l.Msg, l.KV))
+			cls := "hook-error:" + m.classifyHookErr(r, st.Pre, l.KV)
+			if cls != "hook-error:reward-pool-shortfall" && redelIntoRecreated(r, st.Pre, "") {
+				cls = "hook-error:redelegation-into-validator-removed-by-staking-and-created-again"
+			}
+			r.Violate("C08.a", cls, fmt.Sprintf("x/staking logged %q%s", l.Msg, l.KV))
 			// excused by an open finding: the half-applied slash is its consequence, the models no longer describe this run
 			m.dead = true
 			return
@@ -469,7 +473,11 @@ func (m *monC08) OnStep(r *Runner, st *Step) {
 	}
 	if st.Kind == "slash" && st.Res != nil && st.Res.Panic && isAllianceFailure(st.Res.Err, st.Res.Stack) {
 		r.Eval("C08.a")
-		r.Violate("C08.a", "hook-panic:"+classifyErr(st.Res.Err), "slash callback panicked: "+st.Res.Err)
+		cls := "hook-panic:" + classifyErr(st.Res.Err)
+		if st.ROp != nil && strings.Contains(st.Res.Stack, "slashRedelegations") && redelIntoRecreated(r, st.Pre, sdk.ValAddress(st.ROp.Val).String()) {
+			cls = "hook-panic:redelegation-into-validator-removed-by-staking-and-created-again"
+		}
+		r.Violate("C08.a", cls, "slash callback panicked: "+st.Res.Err)
 		return
 	}
 	if len(st.Slashes) > 0 {
@@ -514,17 +522,46 @@ func (m *monC08) OnStep(r *Runner, st *Step) {
 		}
 		r.Eval("C08.probe")
 		perr, pan := m.probeHook(r, va, f)
+		// a pending redelegation out of v lands on a validator record that was deleted when x/staking removed
+		// the validator and created again empty (open finding): the destination delegation holds more shares than
+		// the record, reducing it underflows
+		onRecreated := redelIntoRecreated(r, st.Post, v)
 		if pan != "" {
-			r.Violate("C08.a", "probe-panic:"+classifyErr(pan), fmt.Sprintf("BeforeValidatorSlashed(%s, %s) panics in this state: %s", short(v), f, pan))
-			return
+			cls := "probe-panic:" + classifyErr(pan)
+			if onRecreated && strings.Contains(pan, "slashRedelegations") {
+				cls = "probe-panic:redelegation-into-validator-removed-by-staking-and-created-again"
+			}
+			r.Violate("C08.a", cls, fmt.Sprintf("BeforeValidatorSlashed(%s, %s) panics in this state: %s", short(v), f, pan))
+			if r.failed() {
+				return
+			}
+			continue
 		}
 		if perr != nil {
-			r.Violate("C08.a", "probe-error:"+m.classifyHookErr(r, st.Post, perr.Error()), fmt.Sprintf("BeforeValidatorSlashed(%s, %s) fails in this state: %v", short(v), f, perr))
+			cls := "probe-error:" + m.classifyHookErr(r, st.Post, perr.Error())
+			if onRecreated && cls != "probe-error:reward-pool-shortfall" {
+				cls = "probe-error:redelegation-into-validator-removed-by-staking-and-created-again"
+			}
+			r.Violate("C08.a", cls, fmt.Sprintf("BeforeValidatorSlashed(%s, %s) fails in this state: %v", short(v), f, perr))
 			if r.failed() {
 				return
 			}
 		}
 	}
+}
+
+// redelIntoRecreated: a pending redelegation out of src (any source when src is empty) points at a position on a
+// validator whose record was deleted when x/staking removed the validator (open finding, see Runner.strandedPos).
+func redelIntoRecreated(r *Runner, s *Snap, src string) bool {
+	if s == nil {
+		return false
+	}
+	for _, ix := range s.RedelIdx {
+		if (src == "" || ix.Src == src) && r.strandedPos(s, ix.Dst, ix.Denom) {
+			return true
+		}
+	}
+	return false
 }
 
 func (m *monC08) probeHook(r *Runner, va sdk.ValAddress, f sdkmath.LegacyDec) (err error, pan string) {
